@@ -106,6 +106,14 @@ CHECKS.update({
                 technique="TLA+ models of the typed bucket and of the compound-key codec; TLC-enumerated write sequences / lists replayed on TypedBucket and Encode/DecodeStringSlice"),
 })
 
+CHECKS.update({
+    "C09": dict(cat="model_checking", ref="DESIGN.md 5/C09", note="Trusted base: TLC; the raw-corruption writer and the projection of the harness. Bounded: 5 base states, sequences of up to 2 (quick) / 3 (thorough) corruptions of 14 kinds. Report texts are not compared.",
+                text="Inconsistency facts and the required repair are explicit TLA+ definitions over Store's database record; TLC proves their coherence (facts iff inconsistent, "
+                     "repair complete / idempotent / neutral on consistent states) over all corruption sequences within the bound, and every such pair is replayed on the "
+                     "real file: soundness, completeness, read-only check mode, state after fix equal to the model's repair, convergent re-check.",
+                technique="TLA+ model of inconsistencies and repair checked by TLC; all (base, corruption sequence) pairs replayed with raw corruption + CheckIntegrity"),
+})
+
 NOT_YET = {
     "C01": "check under construction in this session (Query.tla); not claimed until it runs clean on the unchanged tree",
     "C02": "check under construction (Query.tla / ScanAlgo.tla)",
